@@ -32,6 +32,8 @@ func c01Letters() []pwLetter {
 		{Name: "p(err)", Bytes: pgproto.Password("err"), Accept: "no", Outcome: "fail"},
 		{Name: "p(validator returns true together with an error)", Bytes: pgproto.Password("errtrue"), Accept: "no", Outcome: "fail"},
 		{Name: "p(empty password)", Bytes: pgproto.Password(""), Accept: "no", Outcome: "reject"},
+		{Name: "p(validator rejects and returns a nil context)", Bytes: pgproto.Password("nilctx"), Accept: "no", Outcome: "reject"},
+		{Name: "p(validator fails and returns a nil context)", Bytes: pgproto.Password("nilctxerr"), Accept: "no", Outcome: "fail"},
 		{Name: "p without NUL", Bytes: pgproto.Msg('p', []byte("good")), Accept: "no"},
 		{Name: "p empty body", Bytes: pgproto.Msg('p', nil), Accept: "no"},
 		{Name: "p(good) with surplus after NUL", Bytes: pgproto.Msg('p', []byte("good\x00extra")), Accept: "either", PW: "good"},
@@ -246,6 +248,10 @@ func c01Server(calls *c01Calls, auth bool) (*harness.One, error) {
 			return ctx, false, errors.New("validator backend unavailable")
 		case "errtrue":
 			return ctx, true, errors.New("credentials match but the audit record could not be written")
+		case "nilctx":
+			return nil, false, nil // a rejection that hands no context back
+		case "nilctxerr":
+			return nil, false, errors.New("validator backend unavailable")
 		}
 		return ctx, false, nil
 	}
